@@ -346,6 +346,19 @@ def run(ctx):
             if fi["blt"] == "diff":
                 bad("builtin encoding/json.Unmarshal disagrees with json.Extract on the same document", c, i, m)
                 continue
+            # encoding/json.Validate(doc, _) accepts exactly what Extract+BuildExpr accepts
+            # (it does not re-quote strings, so the F14 class passes it)
+            val = fi.get("val", "-")
+            if val == "PANIC":
+                if "#N" in fm["cue"]:
+                    known("exp")
+                else:
+                    bad("encoding/json.Validate panics on a document", c, i, m, doc=doc.decode("utf-8", "replace"))
+                    continue
+            elif val != "-" and (val == "ok") != (fi["cue"] != "REJECT"):
+                bad("encoding/json.Validate(doc, _) disagrees with json.Extract+BuildExpr on acceptance", c, i, m,
+                    doc=doc.decode("utf-8", "replace"))
+                continue
             if fi["m"] in ("ERR", "PANIC"):
                 bad("a decoded document cannot be marshalled", c, i, m)
                 continue
